@@ -27,6 +27,7 @@ NS = (10, 1, 2147483647)
 FS = ('a%s.c', 'b%s.h')
 PRELUDE = b'#define M(a,b,c) a b c'
 WBATCH = 40
+REASK = 4
 WTIMEOUT = 120
 
 # violation templates: (name, physical lines with %d = uid, index of the line carrying the reporting token, group)
@@ -59,8 +60,9 @@ TINDEX = {t[0]: t for t in TEMPLATES}
 
 def kind_lines(kind, pos, n, f, uid):
     """(physical lines, labels) of one line kind at sequence position pos."""
+    pos = '%d_%d' % (pos, uid)       # names carry the program number: programs share a unit in witness batches
     if kind == 'code':
-        return ['int a%d;' % pos], ['code']
+        return ['int a%s;' % pos], ['code']
     if kind == 'blank':
         return [''], ['blank']
     if kind == 'mark':
@@ -72,19 +74,19 @@ def kind_lines(kind, pos, n, f, uid):
     if kind == 'linefile':
         return ['#line %d "%s"' % (n, f)], ['linefile']
     if kind == 'spliced':
-        return ['int a%d \\' % pos, ';'], ['splice-open', 'splice-cont']
+        return ['int a%s \\' % pos, ';'], ['splice-open', 'splice-cont']
     if kind == 'comment2':
-        return ['/* c', 'c */ int a%d;' % pos], ['comment-open', 'comment-close-code']
+        return ['/* c', 'c */ int a%s;' % pos], ['comment-open', 'comment-close-code']
     if kind == 'linecomment':
         return ['// c'], ['linecomment']
     if kind == 'invoc3':
-        return ['int a%d = M(1,' % pos, '+ 2,', '+ 3);'], ['invoc-open', 'invoc-mid', 'invoc-close']
+        return ['int a%s = M(1,' % pos, '+ 2,', '+ 3);'], ['invoc-open', 'invoc-mid', 'invoc-close']
     if kind == 'define2':
-        return ['#define D%d 1 \\' % pos, '+ 2'], ['define-open', 'define-cont']
+        return ['#define D%s 1 \\' % pos, '+ 2'], ['define-open', 'define-cont']
     if kind == 'pragma':
         return ['#pragma x'], ['pragma']
     if kind == 'splicefirst':
-        return ['\\', 'int a%d;' % pos], ['splice-first', 'splice-cont']
+        return ['\\', 'int a%s;' % pos], ['splice-first', 'splice-cont']
     raise ValueError(kind)
 
 
@@ -226,7 +228,8 @@ def family(tname, exp, obs, lost, nextrec):
 
 
 def _job(shard):
-    prefix, maxlen, rots, tnames, wcap = shard
+    prefix, maxlen, rots, tnames, fullrot = shard
+    wcap = None
     srv = fs.server('fs')
     res = {'evaluations': 0, 'agree': 0, 'mismatch': 0, 'ambiguous': 0, 'states': set(), 'transitions': set(), 'distinct': set(),
            'nontrivial': 0, 'viol': {}, 'amb_samples': [], 'samples': [], 'per_template': {}, 'witness_calls': 0, 'notes': [],
@@ -234,7 +237,13 @@ def _job(shard):
     pending = []
     for seq in sequences(prefix, maxlen):
         ndir = sum(1 for k in seq if k in DIRECTIVES)
-        for rot in (rots if ndir else rots[:1]):
+        if not ndir:
+            rr = rots[:1]
+        elif fullrot is not None and len(seq) > fullrot:
+            rr = (sum(KINDS.index(k) for k in seq) % 3,)     # one rotation, a fixed function of the sequence
+        else:
+            rr = rots
+        for rot in rr:
             for tname in tnames:
                 text, at, labels = build(seq, rot, tname)
                 recs = locref.presumed(text)
@@ -278,13 +287,16 @@ def _job(shard):
     try:
         wres = {i: [] for i in todo}
         for tool in ('gcc', 'clang'):
+            reasks = 0
             for b in range(0, len(todo), WBATCH):
                 grp = todo[b:b + WBATCH]
                 out = w_batch(tool, [pending[i][0] for i in grp])
                 res['witness_calls'] += 1
                 for i, w in zip(grp, out):
-                    if w != pending[i][1]:
-                        # the batch may have blurred it: ask again with the program on its own
+                    if w != pending[i][1] and reasks < REASK:
+                        # the batch may have blurred it: ask again with the program on its own (a bounded number
+                        # of times per shard: a disagreeing witness can only make a case ambiguous, never reported)
+                        reasks += 1
                         w = w_single(tool, pending[i][0])
                         res['witness_calls'] += 1
                     wres[i].append((tool, w))
@@ -307,7 +319,7 @@ def _job(shard):
         if verdict[i] == 'violation':
             v = res['viol'].get(key)
             got = ':'.join(map(str, obs[1:])) if obs[0] == 'diag' else str(obs)
-            if v is None or len(text) < len(v['text']):
+            if v is None or (len(text), text) < (len(v['text']), v['text']):
                 n = v['count'] if v else 0
                 ws = '; '.join('%s %s' % (t, '%s:%d' % w if w else 'no error') for t, w in wres.get(i, [])) if obs[0] != 'crash' else 'not consulted (crash)'
                 v = res['viol'][key] = {'count': n, 'text': text,
@@ -340,11 +352,12 @@ def shards(chk):
         for k in KINDS:
             for k2 in KINDS:
                 for k3 in KINDS:
-                    out.append(('seq', (k, k2, k3), 5, rots, base, None))
+                    out.append(('seq', (k, k2, k3), 5, rots, base, 4))
                 out.append(('seq', (k, k2), 2, rots, base + inside + eol, None))
                 for k3 in KINDS:
                     out.append(('inside', (k, k2, k3), 4, rots, inside, None))
                     out.append(('eol', (k, k2, k3), 3, rots, eol, None))
+    out.sort(key=lambda s: (s[2], s[0] != 'inside'))      # short bounds first, so that a deadline cuts only the longest sequences
     return [s for s in out if chk.want(s[0])]
 
 
@@ -412,12 +425,14 @@ def main(chk):
                 chk.notes.append(n_)
         for key, v in res['viol'].items():
             o = viol.get(key)
-            if o is None or len(v['text']) < len(o['text']):
+            if o is None or (len(v['text']), v['text']) < (len(o['text']), o['text']):
                 c = o['count'] if o else 0
                 viol[key] = dict(v)
                 viol[key]['count'] = c + v['count']
             else:
                 o['count'] += v['count']
+        if done % 200 == 0:
+            chk.log('%d/%d shards, %d programs, %d differ from locref, %d ambiguous' % (done, len(sh), tot['evaluations'], tot['mismatch'], tot['ambiguous']))
         if chk.expired():
             chk.log('deadline: %d of %d shards done' % (done, len(sh)))
             break
